@@ -330,7 +330,53 @@ def rule_add_dispatch(chk):
             good="%d returns, each an updated task" % len(rets), fail="some arm of Task.add does not return the updated task")
 
 
+def rule_model(chk, prefix="C09"):
+    """The immutable tree-node model the parser relies on: TaskLevel is a value type keyed
+    by its list; WrittenMessage/WrittenAction read uuid/level from the logged dict, accept a
+    child only for the same task and the directly enclosing level, and order children by level."""
+    ctx = chk.ctx
+    tl = ctx.cls("_action", "TaskLevel")
+
+    def body_text(m):
+        return " ; ".join(unparse(s) for s in m.node.body if not (isinstance(s, ast.Expr) and isinstance(s.value, ast.Constant)))
+    par = tl.find_method("parent")
+    t = body_text(par)
+    okp = "return None" in t and "self._level[:-1]" in t and ("if not self._level" in t or "len(self._level) == 0" in t or "self._level == []" in t)
+    chk.req(okp, "%s.model" % prefix, "TaskLevel.parent:drops-the-last-position", chk.where(par), good="None for the root level, else the level without its last element",
+            fail="TaskLevel.parent is `%s`" % t[:100])
+    eq, hs = tl.find_method("__eq__"), tl.find_method("__hash__")
+    te, th = body_text(eq), body_text(hs)
+    chk.req("self._level == other._level" in te and "return False" in te, "%s.model" % prefix, "TaskLevel.__eq__:by-level-list", chk.where(eq), good="equal iff same class and same level list", fail="TaskLevel.__eq__ is `%s`" % te[:100])
+    chk.req(th == "return hash(tuple(self._level))", "%s.model" % prefix, "TaskLevel.__hash__:of-the-level-tuple", chk.where(hs), good="hash(tuple(level))", fail="TaskLevel.__hash__ is `%s` (nodes are keyed by TaskLevel)" % th[:80])
+    for nm, op in (("__lt__", "<"), ("__le__", "<="), ("__gt__", ">"), ("__ge__", ">=")):
+        m = tl.find_method(nm)
+        tt = body_text(m)
+        chk.req(tt == "return self._level %s other._level" % op, "%s.model" % prefix, "TaskLevel.%s:list-order" % nm, chk.where(m), good="lexicographic order of the level lists", fail="TaskLevel.%s is `%s`" % (nm, tt[:80]))
+    wm = ctx.cls("_message", "WrittenMessage")
+    p = ctx.p
+    msg = p.mod("_message")
+    for prop, const in (("task_uuid", "TASK_UUID_FIELD"), ("timestamp", "TIMESTAMP_FIELD"), ("task_level", "TASK_LEVEL_FIELD")):
+        m = wm.find_method(prop)
+        tt = body_text(m)
+        want = "self._logged_dict[%s]" % const
+        chk.req(want in tt and ("TaskLevel(level=" in tt) == (prop == "task_level"), "%s.model" % prefix, "WrittenMessage.%s:reads-%s" % (prop, p.fold_global(msg, const)), chk.where(m),
+                good=tt[:70], fail="WrittenMessage.%s is `%s`" % (prop, tt[:80]))
+    wa = ctx.cls("_action", "WrittenAction")
+    vm = wa.find_method("_validate_message")
+    tt = body_text(vm)
+    okv = "message.task_uuid != self.task_uuid" in tt and "raise WrongTask" in tt and "message.task_level.parent() == self.task_level" in tt and "raise WrongTaskLevel" in tt
+    chk.req(okv, "%s.model" % prefix, "WrittenAction._validate_message:same-task-direct-child", chk.where(vm), good="rejects other tasks and non-direct children", fail="WrittenAction._validate_message is `%s`" % tt[:120])
+    ac = wa.find_method("_add_child")
+    tt = body_text(ac)
+    chk.req("self._validate_message(message)" in tt and "('_children', level)" in tt.replace('"', "'") and "level = message.task_level" in tt, "%s.model" % prefix, "WrittenAction._add_child:keyed-by-the-child's-level", chk.where(ac),
+            good="validated, then stored under its own level", fail="WrittenAction._add_child is `%s`" % tt[:120])
+    ch = wa.find_method("children")
+    tt = body_text(ch)
+    chk.req("sorted(self._children.values()" in tt and "m.task_level" in tt, "%s.model" % prefix, "WrittenAction.children:ordered-by-level", chk.where(ch), good="children sorted by task_level", fail="WrittenAction.children is `%s`" % tt[:100])
+
+
 def run(chk):
+    rule_model(chk)
     rule_never_early(chk)
     rule_upward(chk)
     rule_once(chk)
